@@ -38,6 +38,9 @@ type c02Case struct {
 	// Expire: markers of single calls whose caller cancels its context 1ms after issuing
 	// them (before the flush): the client leaves them out of the multi-request.
 	Expire map[string]bool `json:"expire,omitempty"`
+	// Junk: markers of calls whose first multi-response carries bytes behind its (sound) cellblock: the client
+	// refuses that response as a whole and the calls in it are sent again
+	Junk map[string]bool `json:"junk,omitempty"`
 }
 
 const appExc = "com.example.ApplicationException"
@@ -69,6 +72,16 @@ func c02RunInBubble(c c02Case) (out Outcome) {
 	cl.UseCellBlocks = c.CellBlocks
 	for mk, class := range c.Exc {
 		cl.Script[mk] = []sim.Outcome{{Kind: "exc", Class: class, Stack: "scripted"}}
+		// (a response that is refused as a whole takes the exceptions in it along; the calls are sent again
+		// and the server answers the same way)
+		for k := 0; k < 2*len(c.Junk); k++ {
+			cl.Script[mk] = append(cl.Script[mk], sim.Outcome{Kind: "exc", Class: class, Stack: "scripted"})
+		}
+	}
+	for mk := range c.Junk {
+		if _, other := c.Exc[mk]; !other {
+			cl.Script[mk] = []sim.Outcome{{Kind: "junk"}, {Kind: "ok"}}
+		}
 	}
 	regs := cl.TableRegions(c.Layout.Table)
 	for _, ri := range c.RegionExc {
@@ -232,6 +245,11 @@ func c02RunInBubble(c c02Case) (out Outcome) {
 	if len(c.Exc) > 0 {
 		out.Labels = append(out.Labels, "with_exceptions")
 	}
+	cl.Lock()
+	if cl.JunkSent > 0 {
+		out.Labels = append(out.Labels, "multi_response_refused_for_trailing_bytes")
+	}
+	cl.Unlock()
 	out.NonTrivial = outOfOrder > 0 || permutable > 0
 	return out
 }
@@ -291,6 +309,13 @@ func c02Gen(t *rapid.T) c02Case {
 		}
 		c.FlushMS = 20
 	}
+	if c.CellBlocks && rapid.IntRange(0, 3).Draw(t, "withjunk") == 0 {
+		c.Junk = map[string]bool{}
+		nj := rapid.IntRange(1, 4).Draw(t, "njunk")
+		for i := 0; i < nj; i++ {
+			c.Junk[fmt.Sprintf("mk%d", rapid.IntRange(1, n).Draw(t, "junkmk"))] = true
+		}
+	}
 	if rapid.IntRange(0, 2).Draw(t, "withexc") == 0 {
 		ne := rapid.IntRange(1, 4).Draw(t, "nexc")
 		for i := 0; i < ne; i++ {
@@ -307,7 +332,7 @@ func TestC02_OwnResponse(t *testing.T) {
 			"SendBatch calls over 1..6 regions on 1..3 simulated servers; queue size in {1,2,5,100}, flush interval in "+
 			"{0,1,20ms}; per-response latencies from a tape (reordering on a connection), permuted results inside "+
 			"multi-responses, cellblock or protobuf result encoding, snappy on/off, scripted per-call application "+
-			"exceptions carrying the call's marker. The servers derive every response from (row, marker); the caller "+
+			"exceptions carrying the call's marker, multi-responses with bytes behind their cellblock (refused as a whole, the calls retried). The servers derive every response from (row, marker); the caller "+
 			"must get exactly that (or the error carrying its own marker). Non-trivial = responses left a connection in "+
 			"another order than the requests arrived, or a multi-response region result held >= 2 results; distinct by "+
 			"case hash")
